@@ -90,6 +90,10 @@ fn all_forms(t: &Tlv) -> Vec<Vec<u8>> {
     let forms = [LenForm::Minimal, LenForm::Long(1), LenForm::Long(2), LenForm::Long(4)];
     let n = t.nodes();
     let mut out = vec![];
+    // (length fields of 8, 9 and 16 octets: all at once)
+    for l in [LenForm::Long(8), LenForm::Long(9), LenForm::Long(16)] {
+        out.push(ber::encode_forms(t, &mut |_| l));
+    }
     if n <= 5 {
         for code in 0..forms.len().pow(n as u32) {
             let mut c = code;
@@ -123,7 +127,15 @@ pub fn run(tier: Tier) -> i32 {
     let ck = cookies();
 
     // ------------------------------------------------------------------ request controls
-    for size in [0i32, 1, 127, 128, 255, 256, 32767, 32768, 65535, 65536, i32::MAX] {
+    // (the boundaries of every INTEGER width, values in the middle of each width, and round numbers)
+    let mut page_sizes: Vec<i32> = vec![0, 1, 127, 128, 255, 256, 32767, 32768, 65535, 65536, i32::MAX];
+    for k in 1..31u32 {
+        page_sizes.extend([(1i32 << k) - 1, 1 << k, (1 << k) + 1, (1i32 << k) + (1 << (k - 1))]);
+    }
+    page_sizes.extend([1000, 10_000, 100_000, 1_000_000, 10_000_000, 100_000_000, 1_000_000_000, 12_345_678]);
+    page_sizes.sort_unstable();
+    page_sizes.dedup();
+    for size in page_sizes {
         for c in &ck {
             let want = ber::encode(&Tlv::seq(vec![Tlv::int(size as i64), Tlv::octets(c.clone())]));
             let (c1, c2) = (c.clone(), c.clone());
@@ -314,7 +326,13 @@ pub fn run(tier: Tier) -> i32 {
         for cookie in &cookie_opts {
             let flags: Vec<Option<bool>> = if choice == 0 { vec![None] } else { vec![None, Some(false), Some(true)] };
             for flag in &flags {
-                let uuid_sets: Vec<Vec<Vec<u8>>> = if choice == 3 { vec![vec![], vec![u1.clone()], vec![u1.clone(), u2.clone()]] } else { vec![vec![]] };
+                let mut uuid_sets: Vec<Vec<Vec<u8>>> = if choice == 3 { vec![vec![], vec![u1.clone()], vec![u1.clone(), u2.clone()]] } else { vec![vec![]] };
+                if choice == 3 && cookie.is_none() && flag.is_none() {
+                    // many UUIDs (an id set of a large refresh)
+                    for n in [5usize, 9, 17, 33, 57, 58, 59, 60, 61, 62, 63, 64, 65, 100, 129, 257, 1000] {
+                        uuid_sets.push((0..n).map(|k| { let mut u = vec![0x11u8; 16]; u[0] = (k >> 8) as u8; u[1] = k as u8; u }).collect());
+                    }
+                }
                 for uuids in &uuid_sets {
                     let val = if choice == 0 {
                         Tlv::prim(CTX, 0, cookie.clone().unwrap())
@@ -363,6 +381,27 @@ pub fn run(tier: Tier) -> i32 {
                     }
                 }
             }
+        }
+    }
+    // ... with many attributes and many values
+    for n in [5usize, 9, 17, 33, 57, 58, 59, 60, 61, 62, 65, 100, 129, 300] {
+        let attrs: Vec<Tlv> = (0..n).map(|k| Tlv::seq(vec![Tlv::octets(format!("a{}", k).into_bytes()), Tlv::set(vec![Tlv::octets(format!("v{}", k).into_bytes())])])).collect();
+        let wide = Tlv::cons(APP, 4, vec![Tlv::octets(b"cn=wide".to_vec()), Tlv::seq(attrs)]);
+        let vals: Vec<Tlv> = (0..n).map(|k| Tlv::octets(format!("m{}", k).into_bytes())).collect();
+        let tall = Tlv::cons(APP, 4, vec![Tlv::octets(b"cn=tall".to_vec()), Tlv::seq(vec![Tlv::seq(vec![Tlv::octets(b"member".to_vec()), Tlv::set(vals)])])]);
+        for (t, key, count) in [(wide, format!("a{}", n - 1), 1usize), (tall, "member".to_string(), n)] {
+            let b = ber::encode(&t);
+            let (b2, key2) = (b.clone(), key.clone());
+            cx.eq(
+                "PreReadResp::parse (many)",
+                "response:ReadEntry",
+                catch(move || {
+                    let r: ldap3::controls::PreReadResp = RawControl { ctype: "x".into(), crit: false, val: Some(b2) }.parse();
+                    (r.attrs.len(), r.attrs.get(&key2).map(|v| v.len()))
+                }),
+                (if count == 1 { n } else { 1 }, Some(count)),
+                &b,
+            );
         }
     }
     // Pre/PostRead response = SearchResultEntry
@@ -460,7 +499,7 @@ pub fn run(tier: Tier) -> i32 {
     let c = cov(vec![
         ("evaluations", json!(total)),
         ("distinct_nontrivial", json!(total)),
-        ("rule", json!("requests: PagedResults (11 sizes x 6 cookies, plus a cookie-length sweep across the length-form boundaries), SyncRequest (mode x cookie x reloadHint x critical), Pre/PostRead, Assertion and MatchedValues over the C08 item pool, ProxyAuth, TxnSpec, ManageDsaIT, RelaxRules, WhoAmI, StartTxn, PasswordModify (27 presence/value combinations), EndTxn: OID, criticality and value bytes compared with RFC-derived DER; responses: PagedResults, SyncState, SyncDone, SyncInfo (4 choices x optional fields x 0-2 UUIDs), ReadEntry, WhoAmI, StartTxn, PasswordModify in every combination of length forms (small values) parsed and compared; control lists of 0-3 controls x criticality {absent, FALSE, TRUE} x value {absent, empty, bytes} through the message envelope in both directions. Every case is a distinct (value, encoding) pair")),
+        ("rule", json!("requests: PagedResults (140 sizes incl. the middle of every INTEGER width x 6 cookies, plus a cookie-length sweep across the length-form boundaries), SyncRequest (mode x cookie x reloadHint x critical), Pre/PostRead, Assertion and MatchedValues over the C08 item pool, ProxyAuth, TxnSpec, ManageDsaIT, RelaxRules, WhoAmI, StartTxn, PasswordModify (27 presence/value combinations), EndTxn: OID, criticality and value bytes compared with RFC-derived DER; responses: PagedResults, SyncState, SyncDone, SyncInfo (4 choices x optional fields x 0-2 UUIDs, id sets of up to 1000 UUIDs), ReadEntry (also with up to 300 attributes / values), WhoAmI, StartTxn, PasswordModify in every combination of length forms (small values) parsed and compared; control lists of 0-3 controls x criticality {absent, FALSE, TRUE} x value {absent, empty, bytes} through the message envelope in both directions. Every case is a distinct (value, encoding) pair")),
         ("control_lists", json!(lists.len())),
         ("samples", json!(["PagedResults {size 500, cookie 122B}", "SyncInfo refreshPresent without refreshDone", "PasswordModify None/Some(\"\")/Some(\"pä$$\")"])),
         ("exhaustive", json!(true)),
